@@ -300,7 +300,8 @@ impl Runtime {
             let cache = self.cache.clone();
             self.emitter().on_tick(move |_| {
                 // do the process tick works
-                for proc in cache.procs().iter() {
+                // also the processes a full cache has dropped: their timeout rules are still due
+                for proc in cache.alive_procs().iter() {
                     if proc.state().is_running() {
                         proc.do_tick();
                     }
